@@ -101,6 +101,42 @@ def widened_allones_cases(ctx, n):
     return out
 
 
+def cross_version_marker_cases(ctx, n):
+    """Stratum: the same marker-operator template over an element whose Table B entry DIFFERS between two master table
+    versions (scale / reference / width), decoded under both versions in this one process, in both orders: what a marker
+    (or any other pseudo descriptor) takes from its element belongs to the message's table group."""
+    import tmplgen
+    rng = ctx.rng
+    vs = [13, 14, 15, 16, 17, 19, 25, 28, 30, 33]
+    pools = {}
+    for v in vs:
+        try:
+            pools[v] = tmplgen.pools(v)
+        except Exception:
+            pass
+    diffs = []
+    vl = sorted(pools)
+    for i, a in enumerate(vl):
+        for b2 in vl[i + 1:]:
+            for e in pools[a].numeric:
+                if e in pools[b2].b and e // 1000 != 31 and pools[a].b[e][2:5] != pools[b2].b[e][2:5] \
+                        and 2 <= pools[a].b[e][4] <= 30 and 2 <= pools[b2].b[e][4] <= 30:
+                    diffs.append((e, a, b2))
+    out = []
+    for _ in range(min(n, len(diffs))):
+        e, a, b2 = rng.choice(diffs)
+        op = rng.choice([223, 224, 225, 232])
+        sig = [8023] if op == 224 else [8024] if op == 225 else []
+        ids = [e, op * 1000, 236000, 101001, 31031] + sig + [op * 1000 + 255]
+        order = [a, b2] if rng.random() < 0.5 else [b2, a]
+        for v in order + [order[0]]:
+            out.append({'ids': ids, 'version': v, 'edition': 4, 'nsub': rng.choice([1, 2]), 'compressed': rng.random() < 0.3,
+                        'forced': '31031=0', 'seed': rng.randrange(1, 2 ** 32), 'maxrep': 3,
+                        'features': {'stratum-marker-across-table-versions': 1}, 'shared': False})
+            out[-1]['shared'] = out[-1]['compressed']
+    return out
+
+
 def apply_probe(c):
     """Values of a probe case: a function of the case record only (replays rebuild them)."""
     if c.get('probe') != 'tableB-allones-in-widened-field' or not c.get('val_toks'):
@@ -140,6 +176,7 @@ def run(ctx):
                       'compressed': False, 'forced': '-', 'seed': rng.randrange(1, 2 ** 32), 'maxrep': 3,
                       'features': {'field-wider-than-64-bits': 1}, 'shared': False})
     cases += widened_allones_cases(ctx, ctx.n(24, 400))
+    cases += cross_version_marker_cases(ctx, ctx.n(8, 120))
     P.attach_templates(cases)
     P.run_gen(cases)
     for c in cases:
